@@ -3,6 +3,7 @@ package gowarc
 import (
 	"bufio"
 	"bytes"
+	"fmt"
 	"io"
 	"time"
 
@@ -89,7 +90,18 @@ func VerifNewBlock(kind string, content []byte, cached bool, alg string, enc int
 	case "w":
 		return newWarcFieldsBlock(opts, &WarcFields{}, r, bd, &Validation{})
 	case "v":
-		return parseRevisitBlock(opts, r, bd, "")
+		// through the public parser (a revisit record whose block is the content)
+		var rec bytes.Buffer
+		fmt.Fprintf(&rec, "WARC/1.1\r\nWARC-Type: revisit\r\nWARC-Record-ID: <urn:uuid:1>\r\nWARC-Date: 2021-05-06T07:08:09Z\r\n"+
+			"WARC-Profile: %s\r\nContent-Type: application/http\r\nContent-Length: %d\r\n\r\n", ProfileServerNotModifiedV1_1, len(content))
+		rec.Write(content)
+		rec.WriteString("\r\n\r\n")
+		wr, _, _, err := NewUnmarshaler(WithNoValidation(), WithDefaultDigestAlgorithm(alg), WithDefaultDigestEncoding(digestEncoding(enc)),
+			WithBufferMaxMemBytes(maxMem), WithBufferTmpDir(tmp)).Unmarshal(bufio.NewReader(&rec))
+		if err != nil {
+			return nil, err
+		}
+		return wr.Block(), nil
 	}
 	return nil, nil
 }
